@@ -15,6 +15,11 @@ from .cfg import CFG, EXIT
 
 MUTATORS = {"append", "extend", "insert", "remove", "pop", "clear", "sort", "reverse",
             "update", "setdefault", "add", "discard", "popitem", "__setitem__", "__delitem__", "__iadd__"}
+# library functions that mutate one of their arguments in place: name -> index of that argument
+LIBRARY_MUTATORS = {"random.shuffle": 0, "heapq.heappush": 0, "heapq.heappop": 0, "heapq.heapify": 0, "heapq.heapreplace": 0,
+                    "bisect.insort": 0, "bisect.insort_left": 0, "bisect.insort_right": 0, "list.sort": 0, "list.append": 0,
+                    "list.remove": 0, "list.reverse": 0, "list.extend": 0, "list.insert": 0, "list.pop": 0, "list.clear": 0,
+                    "dict.update": 0, "dict.pop": 0, "dict.setdefault": 0, "dict.clear": 0, "set.add": 0, "set.discard": 0, "set.update": 0}
 PURE_BUILTINS = {"len", "abs", "round", "isinstance", "str", "int", "float", "bool", "range", "print",
                  "sum", "repr", "type", "ValueError", "TypeError", "KeyError", "hash", "id", "any", "all",
                  "set" }
@@ -181,6 +186,8 @@ class PointsTo:
                 if isinstance(n, ast.Call) and isinstance(n.func, ast.Attribute) and n.func.attr in MUTATORS:
                     if not self.cg.resolve(n, f):
                         self.effects.append(Effect(f, n, n.func.attr, n.func.value))
+                if isinstance(n, ast.Call) and call_name(n) in LIBRARY_MUTATORS and len(n.args) > LIBRARY_MUTATORS[call_name(n)]:
+                    self.effects.append(Effect(f, n, call_name(n), n.args[LIBRARY_MUTATORS[call_name(n)]]))
                 elif isinstance(n, ast.Assign):
                     for t in n.targets:
                         self._target_effects(f, n, t)
